@@ -17,6 +17,7 @@ use lightning_signer::channel::{ChannelId, ChannelSlot, CommitmentType};
 use lightning_signer::invoice::Invoice;
 use lightning_signer::lightning_invoice::{Currency, InvoiceBuilder};
 use lightning_signer::util::status::Status;
+use lightning_signer::util::test_utils::TestFundingTxContext;
 use serde_json::{json, Value};
 use crate::*;
 
@@ -82,6 +83,50 @@ pub fn chan_id(d: u64) -> ChannelId {
     ChannelId::new_from_peer_id_and_oid(&peer_id(), d)
 }
 
+/// The on-chain transaction of a `Withdraw` request: one wallet input (index 1, 4 000 000 sat), optionally
+/// the funding output of channel `fund`, a wallet change output; the fee is 1 000 sat.
+/// `inp`: "wpkh" | "tr" (taproot input) | "badtr" (taproot input, wrong key index given for signing)
+///        | "badpath" (p2wpkh input, derivation path of the wrong length given for signing).
+/// None when channel `fund` does not exist (there are no keys to build its funding output from).
+pub fn withdraw_tx(fx: &NodeFx, inp: &str, fund: u64) -> Option<(TestFundingTxContext, bitcoin::Transaction)> {
+    use bitcoin::bip32::ChildNumber;
+    use lightning_signer::node::SpendType;
+    use lightning_signer::util::test_utils::make_test_funding_channel_outpoint;
+    let nctx = fx.node_ctx();
+    let mut t = TestFundingTxContext::new();
+    t.add_wallet_input(&nctx, SpendType::P2wpkh, 1, 4_000_000);
+    if inp == "tr" || inp == "badtr" {
+        // the previous output pays to the taproot address of wallet key 1 (the signer only sees prev_outs)
+        let secp = Secp256k1::new();
+        let xpub = fx.node.get_account_extended_pubkey();
+        let pk = xpub.derive_pub(&secp, &[ChildNumber::from_normal_idx(1).unwrap()]).unwrap().public_key;
+        let addr = bitcoin::Address::p2tr(&secp, bitcoin::key::UntweakedPublicKey::from(pk), None, fx.network);
+        t.prev_outs[0].script_pubkey = addr.script_pubkey();
+        t.ispnds[0] = SpendType::P2tr;
+    }
+    let mut change = 3_999_000;
+    if fund > 0 {
+        let id = chan_id(fund);
+        if fx.node.get_channel(&id).is_err() {
+            return None;
+        }
+        let setup = test_setup(3_000_000, 0, CommitmentType::StaticRemoteKey, 0x20 + fund as u8);
+        t.outputs.push(make_test_funding_channel_outpoint(&fx.node, &setup, &id, 3_000_000));
+        t.opaths.push(vec![].into());
+        change -= 3_000_000;
+    }
+    t.add_wallet_output(&nctx, SpendType::P2wpkh, 1, change);
+    match inp {
+        "badtr" => t.ipaths[0] = vec![ChildNumber::from_normal_idx(2).unwrap()].into(),
+        "badpath" => {
+            t.ipaths[0] = vec![ChildNumber::from_normal_idx(1).unwrap(), ChildNumber::from_normal_idx(1).unwrap()].into()
+        }
+        _ => {}
+    }
+    let tx = t.to_tx();
+    Some((t, tx))
+}
+
 pub fn apply(fx: &NodeFx, r: &Value) -> Value {
     let op = r["op"].as_str().unwrap();
     let list = || -> Vec<String> {
@@ -105,12 +150,48 @@ pub fn apply(fx: &NodeFx, r: &Value) -> Value {
         "NewChannel" => fx.node.new_channel(r["d"].as_u64().unwrap(), &peer_id(), &fx.node).map(|_| json!({})),
         "Setup" => {
             let d = r["d"].as_u64().unwrap();
-            let setup = test_setup(3_000_000, 0, CommitmentType::StaticRemoteKey, 0x20 + d as u8);
-            fx.node
-                .setup_channel(chan_id(d), None, setup, &bitcoin::bip32::DerivationPath::master())
-                .map(|_| json!({}))
+            let mut setup = test_setup(3_000_000, 0, CommitmentType::StaticRemoteKey, 0x20 + d as u8);
+            // the channel is funded by the transaction that Withdraw(fund = d) asks the signer to sign
+            if let Some((_, tx)) = withdraw_tx(fx, "wpkh", d) {
+                setup.funding_outpoint = bitcoin::OutPoint { txid: tx.compute_txid(), vout: 0 };
+            }
+            let id = chan_id(d);
+            let r = fx.node.setup_channel(id.clone(), None, setup.clone(), &bitcoin::bip32::DerivationPath::master());
+            if r.is_ok() {
+                // a node validates the initial holder commitment before it asks for the funding
+                // transaction to be signed; it is part of bringing the channel up.  Done once, under the
+                // channel lock (concurrent Setups of one channel must not both do it).
+                use lightning_signer::util::test_utils::{
+                    channel_commitment, counterparty_sign_holder_commitment, make_test_counterparty_keys, TestChannelContext,
+                };
+                let nctx = fx.node_ctx();
+                let counterparty_keys = make_test_counterparty_keys(&nctx, &id, setup.channel_value_sat);
+                let cc = TestChannelContext { channel_id: id.clone(), setup, counterparty_keys };
+                let mut t = channel_commitment(&nctx, &cc, 0, 0, 2_999_000, 0, vec![], vec![]);
+                let (cs, hs) = counterparty_sign_holder_commitment(&nctx, &cc, &mut t);
+                let _ = fx.node.with_channel(&id, |c| {
+                    if c.enforcement_state.next_holder_commit_num == 0 {
+                        c.validate_holder_commitment_tx_phase2(0, 0, 2_999_000, 0, vec![], vec![], &cs, &hs)?;
+                        c.activate_initial_commitment()?;
+                    }
+                    Ok(())
+                });
+            }
+            r.map(|_| json!({}))
         }
         "Forget" => fx.node.forget_channel(&chan_id(r["d"].as_u64().unwrap())).map(|_| json!({})),
+        // what the protocol handler's sign-withdrawal and vlsd's direct recovery signer do: check, then sign
+        "Withdraw" => match withdraw_tx(fx, r["inp"].as_str().unwrap(), r["fund"].as_u64().unwrap()) {
+            None => Err(Status::invalid_argument("harness: no such channel")),
+            Some((t, tx)) => {
+                let flags: Vec<bool> = tx.input.iter().map(|_| true).collect();
+                fx.node
+                    .check_onchain_tx(&tx, &flags, &t.prev_outs, &t.iuckeys, &t.opaths)
+                    .map_err(|e| Status::from(e))
+                    .and_then(|_| fx.node.unchecked_sign_onchain_tx(&tx, &t.ipaths, &t.prev_outs, t.iuckeys.clone()))
+                    .map(|_| json!({}))
+            }
+        },
         "Heartbeat" => {
             let _ = fx.node.get_heartbeat();
             Ok(json!({}))
